@@ -137,10 +137,10 @@ Definition not_wild_route (p : N * N) : bool := negb (pair_eqb p wild_route).
 
 (* ---------------------------------------------------------------- RDNSS / DNSSL stanzas *)
 
-(* an IPv6 (not IPv4, not IPv4-mapped) server address *)
+(* a plain IPv6 server address: not IPv4, not IPv4-mapped, no zone *)
 Definition server_key (s : atext) : option skey :=
   match s with
-  | AAddr false a z => if is_4in6 a then None else Some (a, z)
+  | AAddr false a z => if is_4in6 a then None else if N.ltb 0 z then None else Some (a, z)
   | _ => None
   end.
 Definition server_keys (l : list atext) : list skey :=
